@@ -961,4 +961,867 @@ Proof.
     exfalso. apply Hne. exists x. now apply (solve_left_sound r c M rv x).
 Qed.
 
+
+(* ---- TryInv ------------------------------------------------------------------------------------------ *)
+
+(* joint kernel of the pair (a | out) *)
+Definition ker2 (a out : @matrix F) (u w : list F) : Prop :=
+  forall i, dot K (row i a) u + dot K (row i out) w = 0.
+
+Lemma ker2_swap_rows : forall (a out : @matrix F) x y u w,
+  x < length a -> y < length a -> length out = length a ->
+  (ker2 (swap_rows x y a) (swap_rows x y out) u w <-> ker2 a out u w).
+Proof.
+  intros a out x y u w Hx Hy Hl. unfold ker2. split; intros H i.
+  - specialize (H (swap_idx x y i)). rewrite !row_swap_rows in H by lia.
+    replace (swap_idx x y (swap_idx x y i)) with i in H; auto.
+    unfold swap_idx.
+    destruct (Nat.eqb i x) eqn:E1; destruct (Nat.eqb i y) eqn:E2;
+      repeat (rewrite ?Nat.eqb_refl; try match goal with
+              | H : Nat.eqb _ _ = true |- _ => apply Nat.eqb_eq in H; subst
+              end); auto.
+    + destruct (Nat.eqb y x) eqn:E3; auto. apply Nat.eqb_eq in E3; auto.
+    + rewrite E1, E2. reflexivity.
+  - rewrite !row_swap_rows by lia. apply H.
+Qed.
+
+Lemma ker2_scale_row : forall (a out : @matrix F) p x u w, x <> 0 ->
+  (ker2 (scale_row K p x a) (scale_row K p x out) u w <-> ker2 a out u w).
+Proof.
+  intros a out p x u w Hx. unfold ker2. split; intros H i; specialize (H i); rewrite !row_scale_row in *.
+  - destruct (Nat.eqb i p); auto. rewrite !dot_vscale_l in H.
+    assert (E : (dot K (row i a) u + dot K (row i out) w) * x = 0) by (rewrite <- H; ring).
+    apply fmul_eq_0 in E. destruct E; [auto|contradiction].
+  - destruct (Nat.eqb i p); auto. rewrite !dot_vscale_l.
+    assert (dot K (row i a) u * x + dot K (row i out) w * x = (dot K (row i a) u + dot K (row i out) w) * x) as -> by ring.
+    rewrite H. ring.
+Qed.
+
+Lemma ker2_eliminate_by : forall n (a out : @matrix F) fs p u w,
+  wf_matrix n n a -> wf_matrix n n out -> p < n ->
+  (ker2 (eliminate_by K fs p a) (eliminate_by K fs p out) u w <-> ker2 a out u w).
+Proof.
+  intros n a out fs p u w Ha Ho Hp. pose proof Ha as [HLa _]. pose proof Ho as [HLo _].
+  unfold ker2. split; intros H i.
+  - destruct (Nat.ltb i n) eqn:E.
+    + apply Nat.ltb_lt in E.
+      pose proof (H p) as Hpp. rewrite !(dot_row_eliminate_by n n) in Hpp by auto.
+      rewrite Nat.eqb_refl in Hpp.
+      specialize (H i). rewrite !(dot_row_eliminate_by n n) in H by auto.
+      destruct (Nat.eqb i p) eqn:E2; auto.
+      assert (dot K (row i a) u + dot K (row i out) w =
+              (dot K (row i a) u - nth i fs 0 * dot K (row p a) u + (dot K (row i out) w - nth i fs 0 * dot K (row p out) w))
+              + nth i fs 0 * (dot K (row p a) u + dot K (row p out) w)) as -> by ring.
+      rewrite H, Hpp. ring.
+    + apply Nat.ltb_ge in E. rewrite !row_overflow by lia. rewrite !dot_nil_l. ring.
+  - destruct (Nat.ltb i n) eqn:E.
+    + apply Nat.ltb_lt in E. rewrite !(dot_row_eliminate_by n n) by auto.
+      destruct (Nat.eqb i p); auto.
+      assert (dot K (row i a) u - nth i fs 0 * dot K (row p a) u + (dot K (row i out) w - nth i fs 0 * dot K (row p out) w)
+              = (dot K (row i a) u + dot K (row i out) w) - nth i fs 0 * (dot K (row p a) u + dot K (row p out) w)) as -> by ring.
+      rewrite (H i), (H p). ring.
+    + apply Nat.ltb_ge in E. rewrite !row_eliminate_by_overflow by lia. rewrite !dot_nil_l. ring.
+Qed.
+
+Record inv_inv (n k : nat) (a out : @matrix F) : Prop := mk_inv_inv {
+  ii_wfa : wf_matrix n n a;
+  ii_wfo : wf_matrix n n out;
+  ii_unit : forall l i, l < k -> entry K i l a = if Nat.eqb i l then 1 else 0
+}.
+
+Lemma inv_step_spec : forall n k a out, inv_inv n k a out -> k < n ->
+  match inv_step K k (a, out) with
+  | None => forall i, k <= i -> entry K i k a = 0
+  | Some st' => inv_inv n (S k) (fst st') (snd st') /\
+                (forall u w, ker2 (fst st') (snd st') u w <-> ker2 a out u w)
+  end.
+Proof.
+  intros n k a out [Hwa Hwo Hunit] Hk. pose proof Hwa as [HLa _]. pose proof Hwo as [HLo _].
+  unfold inv_step. cbn [fst snd].
+  pose proof (find_pivot_row_spec k k a) as Hfp.
+  destruct (find_pivot_row K k k a) as [p|]; [|exact Hfp].
+  destruct Hfp as (Hp1 & Hp2 & Hp3).
+  fold (gj_swapped k p a). fold (gj_swapped k p out). cbn [fst snd].
+  set (a1 := gj_swapped k p a). set (o1 := gj_swapped k p out).
+  assert (Ha1 : forall i j, entry K i j a1 = entry K (swap_idx k p i) j a)
+    by (intros; apply entry_gj_swapped; lia).
+  assert (Hwa1 : wf_matrix n n a1).
+  { unfold a1, gj_swapped. destruct (Nat.eqb p k); auto. apply wf_swap_rows; auto; lia. }
+  assert (Hwo1 : wf_matrix n n o1).
+  { unfold o1, gj_swapped. destruct (Nat.eqb p k); auto. apply wf_swap_rows; auto; lia. }
+  assert (Hk1 : forall u w, ker2 a1 o1 u w <-> ker2 a out u w).
+  { intros. unfold a1, o1, gj_swapped. destruct (Nat.eqb p k); [tauto|]. apply ker2_swap_rows; lia. }
+  assert (Hunit1 : forall l i, l < k -> entry K i l a1 = if Nat.eqb i l then 1 else 0).
+  { intros l i Hl. rewrite Ha1, Hunit by auto.
+    destruct (Nat.ltb i k) eqn:E.
+    + apply Nat.ltb_lt in E. rewrite swap_idx_lt by lia. reflexivity.
+    + apply Nat.ltb_ge in E. pose proof (swap_idx_ge k p i Hp1 E).
+      replace (Nat.eqb (swap_idx k p i) l) with false by (symmetry; apply Nat.eqb_neq; lia).
+      replace (Nat.eqb i l) with false by (symmetry; apply Nat.eqb_neq; lia). reflexivity. }
+  assert (He : entry K k k a1 <> 0).
+  { rewrite Ha1. unfold swap_idx. rewrite Nat.eqb_refl. exact Hp3. }
+  set (e := entry K k k a1) in *. set (x := fdiv K 1 e).
+  assert (Hx : x <> 0).
+  { unfold x. rewrite fdiv_def. intro E. apply (finv_neq_0 e He).
+    rewrite <- E. ring. }
+  assert (Hxe : e * x = 1).
+  { unfold x. rewrite fdiv_def. transitivity (finv K e * e); [ring|apply finv_l; auto]. }
+  set (a2 := scale_row K k x a1). set (o2 := scale_row K k x o1).
+  assert (Hwa2 : wf_matrix n n a2) by (apply wf_scale_row; auto).
+  assert (Hwo2 : wf_matrix n n o2) by (apply wf_scale_row; auto).
+  assert (E2 : forall i j, entry K i j a2 = if Nat.eqb i k then entry K i j a1 * x else entry K i j a1)
+    by (intros; apply entry_scale_row).
+  assert (Epiv : entry K k k a2 = 1) by (rewrite E2, Nat.eqb_refl; exact Hxe).
+  split.
+  - constructor.
+    + apply wf_eliminate_by; auto.
+    + apply wf_eliminate_by; auto.
+    + intros l i Hl. destruct (Nat.ltb i n) eqn:Ei.
+      2:{ apply Nat.ltb_ge in Ei. rewrite entry_overflow by (rewrite eliminate_by_length; destruct Hwa2; lia).
+          replace (Nat.eqb i l) with false by (symmetry; apply Nat.eqb_neq; lia). reflexivity. }
+      apply Nat.ltb_lt in Ei. rewrite (entry_eliminate_by n n) by auto. rewrite nth_col.
+      destruct (Nat.eqb l k) eqn:El.
+      * apply Nat.eqb_eq in El; subst l. destruct (Nat.eqb i k) eqn:Eik.
+        -- apply Nat.eqb_eq in Eik; subst i. exact Epiv.
+        -- rewrite Epiv. ring.
+      * apply Nat.eqb_neq in El. assert (Hl' : l < k) by lia.
+        assert (Hcol : forall i', entry K i' l a2 = if Nat.eqb i' l then 1 else 0).
+        { intros i'. rewrite E2, Hunit1 by auto. destruct (Nat.eqb i' k) eqn:E4; auto.
+          apply Nat.eqb_eq in E4; subst i'.
+          replace (Nat.eqb k l) with false by (symmetry; apply Nat.eqb_neq; lia). ring. }
+        rewrite !Hcol. replace (Nat.eqb k l) with false by (symmetry; apply Nat.eqb_neq; lia).
+        destruct (Nat.eqb i k) eqn:Eik.
+        -- apply Nat.eqb_eq in Eik; subst i.
+           replace (Nat.eqb k l) with false by (symmetry; apply Nat.eqb_neq; lia). reflexivity.
+        -- ring.
+  - intros u w. rewrite (ker2_eliminate_by n) by auto.
+    unfold a2, o2. rewrite ker2_scale_row by auto. apply Hk1.
+Qed.
+
+Lemma inv_loop_spec : forall n todo k a out, inv_inv n k a out -> (k + todo)%nat = n ->
+  match inv_loop K todo k (a, out) with
+  | None => exists k' a' out', k' < n /\ inv_inv n k' a' out' /\ (forall i, k' <= i -> entry K i k' a' = 0) /\
+            (forall u w, ker2 a' out' u w <-> ker2 a out u w)
+  | Some st' => inv_inv n n (fst st') (snd st') /\
+                (forall u w, ker2 (fst st') (snd st') u w <-> ker2 a out u w)
+  end.
+Proof.
+  intros n todo; induction todo as [|t IH]; intros k a out Hinv Hkn; cbn [inv_loop].
+  - cbn [fst snd]. assert (k = n) by lia. subst k. split; [auto|tauto].
+  - pose proof (inv_step_spec n k a out Hinv ltac:(lia)) as Hs.
+    destruct (inv_step K k (a, out)) as [[a' out']|].
+    + cbn [fst snd] in Hs. destruct Hs as [Hinv' Hk'].
+      specialize (IH (S k) a' out' Hinv' ltac:(lia)).
+      destruct (inv_loop K t (S k) (a', out')) as [st'|].
+      * destruct IH as [H1 H2]. split; auto. intros u w. rewrite H2. apply Hk'.
+      * destruct IH as (k' & a'' & out'' & H1 & H2 & H3 & H4).
+        exists k', a'', out''. split; [auto|split; [auto|split; [auto|]]].
+        intros u w. rewrite H4. apply Hk'.
+    + exists k, a, out. split; [lia|split; [auto|split; [auto|tauto]]].
+Qed.
+
+(* identity matrix facts *)
+Lemma identity_length : forall n, length (identity K n) = n.
+Proof. intros. unfold identity. now rewrite map_length, seq_length. Qed.
+
+Lemma row_identity : forall n i, i < n -> row i (identity K n) = unit_vec K n i.
+Proof.
+  intros n i Hi. unfold row, identity.
+  rewrite (nth_indep _ [] ((fun i => map (fun j => if Nat.eqb i j then 1 else 0) (seq 0 n)) (nth i (seq 0 n) O)))
+    by now rewrite map_length, seq_length.
+  rewrite (map_nth (fun i => map (fun j => if Nat.eqb i j then 1 else 0) (seq 0 n))).
+  now rewrite seq_nth.
+Qed.
+
+Lemma unit_vec_length : forall n i, length (unit_vec K n i) = n.
+Proof. intros. unfold unit_vec. now rewrite map_length, seq_length. Qed.
+
+Lemma nth_unit_vec : forall n i j, j < n -> nth j (unit_vec K n i) 0 = if Nat.eqb i j then 1 else 0.
+Proof.
+  intros n i j Hj. unfold unit_vec.
+  rewrite (nth_indep _ 0 ((fun j => if Nat.eqb i j then 1 else 0) (nth j (seq 0 n) O)))
+    by now rewrite map_length, seq_length.
+  rewrite (map_nth (fun j => if Nat.eqb i j then 1 else 0)). now rewrite seq_nth.
+Qed.
+
+Lemma wf_identity : forall n, wf_matrix n n (identity K n).
+Proof.
+  intros n. split; [apply identity_length|]. apply Forall_forall. intros x Hx.
+  unfold identity in Hx. apply in_map_iff in Hx. destruct Hx as [i [<- _]].
+  now rewrite map_length, seq_length.
+Qed.
+
+Lemma dot_unit_vec_l : forall n i v, i < n -> dot K (unit_vec K n i) v = nth i v 0.
+Proof.
+  intros n i v Hi. rewrite (dot_single _ _ i).
+  - rewrite nth_unit_vec, Nat.eqb_refl by auto. ring.
+  - intros j Hj. destruct (Nat.ltb j n) eqn:E.
+    + apply Nat.ltb_lt in E. rewrite nth_unit_vec by auto.
+      replace (Nat.eqb i j) with false by (symmetry; apply Nat.eqb_neq; lia). ring.
+    + apply Nat.ltb_ge in E. rewrite nth_overflow by (rewrite unit_vec_length; auto). ring.
+Qed.
+
+Lemma dot_unit_vec_r : forall n i v, i < n -> dot K v (unit_vec K n i) = nth i v 0.
+Proof. intros. rewrite dot_comm. now apply dot_unit_vec_l. Qed.
+
+(* a square matrix whose entries are the Kronecker delta acts as the identity *)
+Lemma dot_row_delta : forall n (a : @matrix F) i u, wf_matrix n n a -> i < n ->
+  (forall l i', l < n -> entry K i' l a = if Nat.eqb i' l then 1 else 0) ->
+  dot K (row i a) u = nth i u 0.
+Proof.
+  intros n a i u Hwf Hi Hd. rewrite (dot_single _ _ i).
+  - rewrite <- entry_row, Hd, Nat.eqb_refl by auto. ring.
+  - intros j Hj. destruct (Nat.ltb j n) eqn:E.
+    + apply Nat.ltb_lt in E. rewrite <- entry_row, Hd by auto.
+      replace (Nat.eqb i j) with false by (symmetry; apply Nat.eqb_neq; lia). ring.
+    + apply Nat.ltb_ge in E. rewrite (nth_overflow (row i a)); [ring|].
+      rewrite (wf_row_length n n a i); auto.
+Qed.
+
+Lemma entry_identity : forall n i j, i < n -> j < n -> entry K i j (identity K n) = if Nat.eqb i j then 1 else 0.
+Proof. intros. rewrite entry_row, row_identity by auto. now apply nth_unit_vec. Qed.
+
+Lemma nth_vopp : forall (l : list F) i, nth i (map (fopp K) l) 0 = fopp K (nth i l 0).
+Proof.
+  induction l as [|h t IH]; intros [|i]; cbn [map nth]; try ring. apply IH.
+Qed.
+
+Lemma dot_vopp_r : forall u v, dot K u (map (fopp K) v) = fopp K (dot K u v).
+Proof.
+  induction u as [|a u IH]; intros [|b v]; cbn [map]; rewrite ?dot_nil_l, ?dot_nil_r; try ring.
+  rewrite !dot_cons, IH. ring.
+Qed.
+
+Lemma mvec_vopp : forall (M : @matrix F) v, mvec K M (map (fopp K) v) = map (fopp K) (mvec K M v).
+Proof.
+  intros. unfold mvec. rewrite map_map. apply map_ext. intros. apply dot_vopp_r.
+Qed.
+
+(* what the final state of TryInv says: N = out satisfies  M (N w) = w  and  N (M u) = u *)
+Lemma try_inv_action : forall n (M N : @matrix F), wf_matrix n n M ->
+  try_inv K M = Some N ->
+  wf_matrix n n N /\
+  (forall w, length w = n -> mvec K M (mvec K N w) = w) /\
+  (forall u, length u = n -> mvec K N (mvec K M u) = u).
+Proof.
+  intros n M N Hwf Ht. pose proof Hwf as [HL _]. unfold try_inv in Ht. unfold nrows in Ht. rewrite HL in Ht.
+  assert (Hinit : inv_inv n 0 M (identity K n)).
+  { constructor; auto using wf_identity. intros; lia. }
+  pose proof (inv_loop_spec n n 0 M (identity K n) Hinit ltac:(lia)) as Hs.
+  destruct (inv_loop K n 0 (M, identity K n)) as [[a out]|]; [|discriminate].
+  inversion Ht; subst N; clear Ht. cbn [fst snd] in *.
+  destruct Hs as [[Hwa Hwo Hunit] Hk]. pose proof Hwo as [HLo _].
+  assert (Hfin : forall u w i, i < n -> dot K (row i a) u + dot K (row i out) w = nth i u 0 + nth i (mvec K out w) 0).
+  { intros u w i Hi. rewrite (dot_row_delta n a i u Hwa Hi) by (intros; apply Hunit; auto).
+    rewrite nth_mvec. reflexivity. }
+  assert (Hini : forall u w i, i < n -> dot K (row i M) u + dot K (row i (identity K n)) w = nth i (mvec K M u) 0 + nth i w 0).
+  { intros u w i Hi. rewrite row_identity, dot_unit_vec_l, nth_mvec by auto. reflexivity. }
+  assert (Hov : forall (X Y : @matrix F) u w i, length X = n -> length Y = n -> n <= i ->
+                dot K (row i X) u + dot K (row i Y) w = 0).
+  { intros X Y u w i HX HY Hi. rewrite !row_overflow by lia. rewrite !dot_nil_l. ring. }
+  split; auto. split.
+  - intros w Hw. set (u := map (fopp K) (mvec K out w)).
+    assert (Hu : forall i, nth i u 0 = fopp K (nth i (mvec K out w) 0)).
+    { intros i. unfold u. destruct (Nat.ltb i (length (mvec K out w))) eqn:E.
+      - apply Nat.ltb_lt in E. rewrite (nth_indep _ 0 (fopp K 0)) by (rewrite map_length; auto).
+        apply (map_nth (fopp K)).
+      - apply Nat.ltb_ge in E. rewrite !nth_overflow by (rewrite ?map_length; auto). ring. }
+    assert (H1 : ker2 a out u w).
+    { intros i. destruct (Nat.ltb i n) eqn:E.
+      - apply Nat.ltb_lt in E. rewrite Hfin, Hu by auto. ring.
+      - apply Nat.ltb_ge in E. apply Hov; destruct Hwa; auto. }
+    apply Hk in H1.
+    apply (nth_ext_eq _ _ 0); [rewrite mvec_length; lia|].
+    intros i Hi. rewrite mvec_length in Hi. rewrite HL in Hi.
+    specialize (H1 i). rewrite Hini in H1 by auto.
+    assert (Hmu : mvec K M u = map (fopp K) (mvec K M (mvec K out w))) by (unfold u; apply mvec_vopp).
+    rewrite Hmu in H1.
+    rewrite nth_vopp in H1.
+    assert (nth i w 0 = (fopp K (nth i (mvec K M (mvec K out w)) 0) + nth i w 0) + nth i (mvec K M (mvec K out w)) 0) as Hw' by ring.
+    rewrite H1 in Hw'. rewrite Hw'. ring.
+  - intros u Hu. set (w := map (fopp K) (mvec K M u)).
+    assert (Hwn : forall i, nth i w 0 = fopp K (nth i (mvec K M u) 0)).
+    { intros i. unfold w. destruct (Nat.ltb i (length (mvec K M u))) eqn:E.
+      - apply Nat.ltb_lt in E. rewrite (nth_indep _ 0 (fopp K 0)) by (rewrite map_length; auto).
+        apply (map_nth (fopp K)).
+      - apply Nat.ltb_ge in E. rewrite !nth_overflow by (rewrite ?map_length; auto). ring. }
+    assert (H1 : ker2 M (identity K n) u w).
+    { intros i. destruct (Nat.ltb i n) eqn:E.
+      - apply Nat.ltb_lt in E. rewrite Hini, Hwn by auto. ring.
+      - apply Nat.ltb_ge in E. apply Hov; auto using identity_length. }
+    apply Hk in H1.
+    apply (nth_ext_eq _ _ 0); [rewrite mvec_length; lia|].
+    intros i Hi. rewrite mvec_length in Hi. rewrite HLo in Hi.
+    specialize (H1 i). rewrite Hfin in H1 by auto.
+    assert (Hmw : mvec K out w = map (fopp K) (mvec K out (mvec K M u))) by (unfold w; apply mvec_vopp).
+    rewrite Hmw in H1.
+    rewrite nth_vopp in H1.
+    assert (nth i u 0 = (nth i u 0 + fopp K (nth i (mvec K out (mvec K M u)) 0)) + nth i (mvec K out (mvec K M u)) 0) as Hu' by ring.
+    rewrite H1 in Hu'. rewrite Hu'. ring.
+Qed.
+
+
+(* ---- products, transposes: entries and extensionality --------------------------------------------- *)
+
+Lemma matrix_ext : forall r c (X Y : @matrix F), wf_matrix r c X -> wf_matrix r c Y ->
+  (forall i j, i < r -> j < c -> entry K i j X = entry K i j Y) -> X = Y.
+Proof.
+  intros r c X Y HX HY H. pose proof HX as [HLX _]. pose proof HY as [HLY _].
+  apply (nth_ext_eq _ _ []); [lia|]. intros i Hi. rewrite HLX in Hi.
+  fold (row i X). fold (row i Y).
+  apply (nth_ext_eq _ _ 0).
+  - rewrite (wf_row_length r c X i), (wf_row_length r c Y i); auto.
+  - intros j Hj. rewrite (wf_row_length r c X i) in Hj by auto. rewrite <- !entry_row. apply H; auto.
+Qed.
+
+Lemma vecm_length : forall x (B : @matrix F), length (vecm K x B) = ncols B.
+Proof. intros. unfold vecm. now rewrite map_length, seq_length. Qed.
+
+Lemma nth_vecm : forall x (B : @matrix F) j, j < ncols B -> nth j (vecm K x B) 0 = dot K x (col K j B).
+Proof.
+  intros x B j Hj. unfold vecm.
+  rewrite (nth_indep _ 0 ((fun j => dot K x (col K j B)) (nth j (seq 0 (ncols B)) O)))
+    by now rewrite map_length, seq_length.
+  rewrite (map_nth (fun j => dot K x (col K j B))). now rewrite seq_nth.
+Qed.
+
+Lemma mmul_length : forall (A B : @matrix F), length (mmul K A B) = length A.
+Proof. intros. unfold mmul. apply map_length. Qed.
+
+Lemma row_mmul : forall (A B : @matrix F) i, i < length A -> row i (mmul K A B) = vecm K (row i A) B.
+Proof.
+  intros A B i Hi. unfold row, mmul.
+  rewrite (nth_indep _ [] (vecm K [] B)) by now rewrite map_length.
+  apply (map_nth (fun r => vecm K r B)).
+Qed.
+
+Lemma wf_mmul : forall r m c (A B : @matrix F), wf_matrix r m A -> wf_matrix m c B -> 0 < m ->
+  wf_matrix r c (mmul K A B).
+Proof.
+  intros r m c A B [HLA _] HB Hm. split; [now rewrite mmul_length|].
+  apply Forall_forall. intros x Hx. unfold mmul in Hx. apply in_map_iff in Hx.
+  destruct Hx as [rw [<- _]]. rewrite vecm_length. now apply (ncols_wf m c B).
+Qed.
+
+Lemma entry_mmul : forall (A B : @matrix F) i j, i < length A -> j < ncols B ->
+  entry K i j (mmul K A B) = dot K (row i A) (col K j B).
+Proof. intros. rewrite entry_row, row_mmul, nth_vecm; auto. Qed.
+
+Lemma entry_transpose : forall (M : @matrix F) i j, i < ncols M -> entry K i j (transpose K M) = entry K j i M.
+Proof. intros. rewrite entry_row, row_transpose, nth_col; auto. Qed.
+
+Lemma col_transpose : forall r c (M : @matrix F) i, wf_matrix r c M -> 0 < r -> i < r ->
+  col K i (transpose K M) = row i M.
+Proof.
+  intros r c M i Hwf Hr Hi. pose proof (ncols_wf r c M Hwf Hr) as Hnc.
+  apply (nth_ext_eq _ _ 0).
+  - rewrite col_length, transpose_length, (wf_row_length r c M i); auto.
+  - intros j Hj. rewrite col_length, transpose_length in Hj.
+    rewrite nth_col, entry_transpose by auto. apply entry_row.
+Qed.
+
+Lemma mvec_unit_vec : forall r c (N : @matrix F) j, wf_matrix r c N -> j < c ->
+  mvec K N (unit_vec K c j) = col K j N.
+Proof.
+  intros r c N j Hwf Hj. apply (nth_ext_eq _ _ 0); [now rewrite mvec_length, col_length|].
+  intros i Hi. rewrite nth_mvec, nth_col, dot_unit_vec_r by auto. symmetry. apply entry_row.
+Qed.
+
+(* (d) TryInv is sound: the returned matrix is a two-sided inverse *)
+Theorem try_inv_sound : forall n (M N : @matrix F), wf_matrix n n M -> 0 < n ->
+  try_inv K M = Some N ->
+  wf_matrix n n N /\ mmul K M N = identity K n /\ mmul K N M = identity K n.
+Proof.
+  intros n M N Hwf Hn Ht. destruct (try_inv_action n M N Hwf Ht) as (HwN & H1 & H2).
+  pose proof Hwf as [HLM _]. pose proof HwN as [HLN _].
+  split; auto. split.
+  - apply (matrix_ext n n); auto using wf_identity. { apply (wf_mmul n n n); auto. }
+    intros i j Hi Hj. rewrite entry_mmul by (rewrite ?(ncols_wf n n N); auto; lia).
+    rewrite <- (mvec_unit_vec n n N j) by auto. rewrite <- nth_mvec.
+    rewrite H1 by apply unit_vec_length. rewrite nth_unit_vec, entry_identity by auto.
+    rewrite Nat.eqb_sym. reflexivity.
+  - apply (matrix_ext n n); auto using wf_identity. { apply (wf_mmul n n n); auto. }
+    intros i j Hi Hj. rewrite entry_mmul by (rewrite ?(ncols_wf n n M); auto; lia).
+    rewrite <- (mvec_unit_vec n n M j) by auto. rewrite <- nth_mvec.
+    rewrite H2 by apply unit_vec_length. rewrite nth_unit_vec, entry_identity by auto.
+    rewrite Nat.eqb_sym. reflexivity.
+Qed.
+
+
+(* ---- finite sums over indices --------------------------------------------------------------------- *)
+
+Fixpoint bsum (n : nat) (f : nat -> F) : F :=
+  match n with O => 0 | S m => bsum m f + f m end.
+
+Lemma bsum_ext : forall n f g, (forall i, i < n -> f i = g i) -> bsum n f = bsum n g.
+Proof.
+  induction n as [|n IH]; intros f g H; cbn [bsum]; auto.
+  rewrite (IH f g) by (intros; apply H; lia). rewrite (H n) by lia. reflexivity.
+Qed.
+
+Lemma bsum_zero : forall n f, (forall i, i < n -> f i = 0) -> bsum n f = 0.
+Proof.
+  induction n as [|n IH]; intros f H; cbn [bsum]; auto.
+  rewrite IH by (intros; apply H; lia). rewrite (H n) by lia. ring.
+Qed.
+
+Lemma bsum_add : forall n f g, bsum n (fun i => f i + g i) = bsum n f + bsum n g.
+Proof. induction n as [|n IH]; intros; cbn [bsum]; [ring|]. rewrite IH. ring. Qed.
+
+Lemma bsum_mul_l : forall n c f, c * bsum n f = bsum n (fun i => c * f i).
+Proof. induction n as [|n IH]; intros; cbn [bsum]; [ring|]. rewrite <- IH. ring. Qed.
+
+Lemma bsum_mul_r : forall n c f, bsum n f * c = bsum n (fun i => f i * c).
+Proof. induction n as [|n IH]; intros; cbn [bsum]; [ring|]. rewrite <- IH. ring. Qed.
+
+Lemma bsum_exchange : forall n m (f : nat -> nat -> F),
+  bsum n (fun i => bsum m (fun j => f i j)) = bsum m (fun j => bsum n (fun i => f i j)).
+Proof.
+  induction n as [|n IH]; intros m f; cbn [bsum].
+  - symmetry. apply bsum_zero. auto.
+  - rewrite IH. rewrite <- bsum_add. reflexivity.
+Qed.
+
+Lemma bsum_shift : forall n f, bsum (S n) f = f O + bsum n (fun i => f (S i)).
+Proof.
+  induction n as [|n IH]; intros f.
+  - cbn [bsum]. ring.
+  - change (bsum (S (S n)) f) with (bsum (S n) f + f (S n)). rewrite IH. cbn [bsum]. ring.
+Qed.
+
+Lemma bsum_delta : forall n i g, i < n -> bsum n (fun l => (if Nat.eqb i l then 1 else 0) * g l) = g i.
+Proof.
+  induction n as [|n IH]; intros i g Hi; [lia|]. cbn [bsum].
+  destruct (Nat.eqb i n) eqn:E.
+  - apply Nat.eqb_eq in E; subst i. rewrite bsum_zero; [ring|].
+    intros l Hl. replace (Nat.eqb n l) with false by (symmetry; apply Nat.eqb_neq; lia). ring.
+  - apply Nat.eqb_neq in E. rewrite IH by lia. ring.
+Qed.
+
+Lemma dot_bsum : forall u v n, length u <= n \/ length v <= n ->
+  dot K u v = bsum n (fun i => nth i u 0 * nth i v 0).
+Proof.
+  induction u as [|a u IH]; intros v n H.
+  - rewrite dot_nil_l. symmetry. apply bsum_zero. intros i _. destruct i; cbn [nth]; ring.
+  - destruct v as [|b v].
+    + rewrite dot_nil_r. symmetry. apply bsum_zero. intros i _. destruct i; cbn [nth]; ring.
+    + destruct n as [|n]; [cbn [length] in H; lia|].
+      rewrite dot_cons, bsum_shift. cbn [nth]. rewrite (IH v n) by (cbn [length] in H; lia). reflexivity.
+Qed.
+
+Lemma entry_mmul_bsum : forall r m c (A B : @matrix F) i j,
+  wf_matrix r m A -> wf_matrix m c B -> 0 < m -> i < r -> j < c ->
+  entry K i j (mmul K A B) = bsum m (fun l => entry K i l A * entry K l j B).
+Proof.
+  intros r m c A B i j HA HB Hm Hi Hj. pose proof HA as [HLA _].
+  rewrite entry_mmul by (rewrite ?(ncols_wf m c B); auto; lia).
+  rewrite (dot_bsum _ _ m) by (left; rewrite (wf_row_length r m A i); auto).
+  apply bsum_ext. intros l Hl. rewrite nth_col. reflexivity.
+Qed.
+
+(* (e) associativity of the matrix product *)
+Theorem mmul_assoc : forall r m p q (A B C : @matrix F),
+  wf_matrix r m A -> wf_matrix m p B -> wf_matrix p q C -> 0 < m -> 0 < p ->
+  mmul K (mmul K A B) C = mmul K A (mmul K B C).
+Proof.
+  intros r m p q A B C HA HB HC Hm Hp.
+  assert (HAB : wf_matrix r p (mmul K A B)) by (apply (wf_mmul r m p); auto).
+  assert (HBC : wf_matrix m q (mmul K B C)) by (apply (wf_mmul m p q); auto).
+  apply (matrix_ext r q).
+  - apply (wf_mmul r p q); auto.
+  - apply (wf_mmul r m q); auto.
+  - intros i j Hi Hj.
+    rewrite (entry_mmul_bsum r p q) by auto. rewrite (entry_mmul_bsum r m q) by auto.
+    transitivity (bsum p (fun k => bsum m (fun l => entry K i l A * entry K l k B * entry K k j C))).
+    + apply bsum_ext. intros k Hk. rewrite (entry_mmul_bsum r m p) by auto. apply bsum_mul_r.
+    + rewrite bsum_exchange. apply bsum_ext. intros l Hl.
+      rewrite (entry_mmul_bsum m p q) by auto. rewrite bsum_mul_l.
+      apply bsum_ext. intros k Hk. ring.
+Qed.
+
+(* (A·B)^T = B^T·A^T *)
+Theorem transpose_mul : forall r m c (A B : @matrix F),
+  wf_matrix r m A -> wf_matrix m c B -> 0 < r -> 0 < m -> 0 < c ->
+  transpose K (mmul K A B) = mmul K (transpose K B) (transpose K A).
+Proof.
+  intros r m c A B HA HB Hr Hm Hc.
+  assert (HAB : wf_matrix r c (mmul K A B)) by (apply (wf_mmul r m c); auto).
+  assert (HAt : wf_matrix m r (transpose K A)) by (apply wf_transpose; auto).
+  assert (HBt : wf_matrix c m (transpose K B)) by (apply wf_transpose; auto).
+  apply (matrix_ext c r).
+  - apply wf_transpose; auto.
+  - apply (wf_mmul c m r); auto.
+  - intros i j Hi Hj.
+    rewrite entry_transpose by (rewrite (ncols_wf r c _ HAB); auto).
+    rewrite (entry_mmul_bsum r m c) by auto. rewrite (entry_mmul_bsum c m r) by auto.
+    apply bsum_ext. intros l Hl.
+    rewrite entry_transpose by (rewrite (ncols_wf m c B); auto).
+    rewrite entry_transpose by (rewrite (ncols_wf r m A); auto). ring.
+Qed.
+
+Theorem transpose_involutive : forall r c (M : @matrix F), wf_matrix r c M -> 0 < r -> 0 < c ->
+  transpose K (transpose K M) = M.
+Proof.
+  intros r c M HM Hr Hc. pose proof (wf_transpose r c M HM Hr) as HT.
+  apply (matrix_ext r c); auto. { apply wf_transpose; auto. }
+  intros i j Hi Hj. rewrite entry_transpose by (rewrite (ncols_wf c r _ HT); auto).
+  apply entry_transpose. rewrite (ncols_wf r c M); auto.
+Qed.
+
+(* (A·B)·x = A·(B·x) *)
+Theorem mvec_mmul : forall r m c (A B : @matrix F) x,
+  wf_matrix r m A -> wf_matrix m c B -> 0 < m -> length x = c ->
+  mvec K (mmul K A B) x = mvec K A (mvec K B x).
+Proof.
+  intros r m c A B x HA HB Hm Hx. pose proof HA as [HLA _]. pose proof HB as [HLB _].
+  assert (HAB : wf_matrix r c (mmul K A B)) by (apply (wf_mmul r m c); auto).
+  apply (nth_ext_eq _ _ 0); [now rewrite !mvec_length, mmul_length|].
+  intros i Hi. rewrite mvec_length, mmul_length, HLA in Hi.
+  rewrite !nth_mvec.
+  rewrite (dot_bsum _ _ c) by (right; lia).
+  rewrite (dot_bsum _ _ m) by (left; rewrite (wf_row_length r m A i); auto).
+  transitivity (bsum c (fun k => bsum m (fun l => entry K i l A * entry K l k B * nth k x 0))).
+  - apply bsum_ext. intros k Hk. rewrite <- entry_row, (entry_mmul_bsum r m c) by auto. apply bsum_mul_r.
+  - rewrite bsum_exchange. apply bsum_ext. intros l Hl.
+    rewrite nth_mvec, (dot_bsum _ _ c) by (right; lia). rewrite <- entry_row, bsum_mul_l.
+    apply bsum_ext. intros k Hk. rewrite <- entry_row. ring.
+Qed.
+
+Theorem mmul_identity_l : forall r c (M : @matrix F), wf_matrix r c M -> 0 < r -> mmul K (identity K r) M = M.
+Proof.
+  intros r c M HM Hr. apply (matrix_ext r c); auto. { apply (wf_mmul r r c); auto using wf_identity. }
+  intros i j Hi Hj. rewrite (entry_mmul_bsum r r c) by auto using wf_identity.
+  rewrite (bsum_ext r _ (fun l => (if Nat.eqb i l then 1 else 0) * entry K l j M)).
+  - now apply bsum_delta.
+  - intros l Hl. now rewrite entry_identity.
+Qed.
+
+Theorem mmul_identity_r : forall r c (M : @matrix F), wf_matrix r c M -> 0 < c -> mmul K M (identity K c) = M.
+Proof.
+  intros r c M HM Hc. apply (matrix_ext r c); auto. { apply (wf_mmul r c c); auto using wf_identity. }
+  intros i j Hi Hj. rewrite (entry_mmul_bsum r c c) by auto using wf_identity.
+  rewrite (bsum_ext c _ (fun l => (if Nat.eqb j l then 1 else 0) * entry K i l M)).
+  - now apply bsum_delta.
+  - intros l Hl. rewrite entry_identity by auto. rewrite Nat.eqb_sym. ring.
+Qed.
+
+Lemma mvec_identity : forall n x, length x = n -> mvec K (identity K n) x = x.
+Proof.
+  intros n x Hx. apply (nth_ext_eq _ _ 0); [now rewrite mvec_length, identity_length|].
+  intros i Hi. rewrite mvec_length, identity_length in Hi.
+  rewrite nth_mvec, row_identity, dot_unit_vec_l; auto.
+Qed.
+
+Lemma mvec_zero_vec : forall (M : @matrix F) n, mvec K M (zero_vec K n) = zero_vec K (length M).
+Proof.
+  intros. apply (nth_ext_eq _ _ 0); [now rewrite mvec_length, zero_vec_length|].
+  intros i Hi. now rewrite nth_mvec, dot_zero_r, nth_zero_vec.
+Qed.
+
+(* (d) TryInv is complete: it fails only on matrices without a (left, hence two-sided) inverse *)
+Theorem try_inv_complete : forall n (M : @matrix F), wf_matrix n n M -> 0 < n ->
+  try_inv K M = None -> ~ exists N, wf_matrix n n N /\ mmul K N M = identity K n.
+Proof.
+  intros n M Hwf Hn Ht [N [HwN HNM]]. pose proof Hwf as [HL _].
+  unfold try_inv in Ht. unfold nrows in Ht. rewrite HL in Ht.
+  assert (Hinit : inv_inv n 0 M (identity K n)).
+  { constructor; auto using wf_identity. intros; lia. }
+  pose proof (inv_loop_spec n n 0 M (identity K n) Hinit ltac:(lia)) as Hs.
+  destruct (inv_loop K n 0 (M, identity K n)) as [st|]; [discriminate|].
+  destruct Hs as (k & a & out & Hk & [Hwa Hwo Hunit] & Hz & Hker).
+  pose proof Hwa as [HLa _]. pose proof Hwo as [HLo _].
+  set (uf := fun j => if Nat.ltb j k then fopp K (entry K j k a) else if Nat.eqb j k then 1 else 0).
+  set (u := map uf (seq 0 n)).
+  assert (Hul : length u = n) by (unfold u; now rewrite map_length, seq_length).
+  assert (Hun : forall j, j < n -> nth j u 0 = uf j).
+  { intros j Hj. unfold u. rewrite (nth_indep _ 0 (uf (nth j (seq 0 n) O))) by now rewrite map_length, seq_length.
+    rewrite (map_nth uf). now rewrite seq_nth. }
+  assert (H1 : ker2 a out u (zero_vec K n)).
+  { intros i. rewrite dot_zero_r.
+    destruct (Nat.ltb i n) eqn:Ei.
+    2:{ apply Nat.ltb_ge in Ei. rewrite row_overflow by lia. rewrite dot_nil_l. ring. }
+    apply Nat.ltb_lt in Ei.
+    rewrite (dot_bsum _ _ n) by (right; lia).
+    rewrite (bsum_ext n _ (fun j => (if Nat.eqb i j then 1 else 0) * (if Nat.ltb j k then fopp K (entry K j k a) else 0)
+                                     + (if Nat.eqb k j then 1 else 0) * entry K i k a)).
+    - rewrite bsum_add, !bsum_delta by auto.
+      destruct (Nat.ltb i k) eqn:Eik; [ring|]. apply Nat.ltb_ge in Eik. rewrite (Hz i Eik). ring.
+    - intros j Hj. rewrite Hun by auto. unfold uf. rewrite <- entry_row.
+      destruct (Nat.ltb j k) eqn:Ejk.
+      + apply Nat.ltb_lt in Ejk. rewrite Hunit by auto.
+        replace (Nat.eqb k j) with false by (symmetry; apply Nat.eqb_neq; lia). ring.
+      + apply Nat.ltb_ge in Ejk. rewrite (Nat.eqb_sym k j). destruct (Nat.eqb j k) eqn:Ej2.
+        * apply Nat.eqb_eq in Ej2; subst j. ring.
+        * ring. }
+  apply Hker in H1.
+  assert (HMu : mvec K M u = zero_vec K n).
+  { apply (nth_ext_eq _ _ 0); [now rewrite mvec_length, zero_vec_length|].
+    intros i Hi. rewrite mvec_length, HL in Hi. rewrite nth_mvec, nth_zero_vec.
+    specialize (H1 i). rewrite dot_zero_r in H1. rewrite <- H1. ring. }
+  assert (Hu0 : u = zero_vec K n).
+  { rewrite <- (mvec_identity n u Hul), <- HNM.
+    rewrite (mvec_mmul n n n) by auto. rewrite HMu, mvec_zero_vec. destruct HwN as [-> _]. reflexivity. }
+  assert (Hk1 : nth k u 0 = 1).
+  { rewrite Hun by auto. unfold uf. rewrite Nat.ltb_irrefl, Nat.eqb_refl. reflexivity. }
+  rewrite Hu0, nth_zero_vec in Hk1. apply f1_neq_0. auto.
+Qed.
+
+Corollary try_inv_none_iff : forall n (M : @matrix F), wf_matrix n n M -> 0 < n ->
+  (try_inv K M = None <-> ~ exists N, wf_matrix n n N /\ mmul K M N = identity K n /\ mmul K N M = identity K n).
+Proof.
+  intros n M Hwf Hn. split.
+  - intros Ht [N (H1 & H2 & H3)]. apply (try_inv_complete n M Hwf Hn Ht). exists N; auto.
+  - intros Hne. destruct (try_inv K M) as [N|] eqn:E; auto.
+    exfalso. apply Hne. exists N. now apply try_inv_sound.
+Qed.
+
+
+(* ---- module-valued matrices: lifting commutes with the matrix action ------------------------------ *)
+
+Section ModuleProofs.
+Context {G : Type} (Mo : mops G F) (HM : mlaws K Mo).
+
+Lemma gdot_fold_acc : forall (l : list (F * G)) acc,
+  fold_left (fun acc ax => gadd Mo acc (gsmul Mo (snd ax) (fst ax))) l acc =
+  gadd Mo acc (fold_left (fun acc ax => gadd Mo acc (gsmul Mo (snd ax) (fst ax))) l (g0 Mo)).
+Proof.
+  induction l as [|h t IH]; intros acc; cbn [fold_left].
+  - rewrite (ml_add_comm K Mo HM), (ml_add_0_l K Mo HM). reflexivity.
+  - rewrite IH. rewrite (IH (gadd Mo (g0 Mo) _)).
+    rewrite (ml_add_0_l K Mo HM). symmetry. apply (ml_add_assoc K Mo HM).
+Qed.
+
+Lemma gdot_nil_l : forall xs, gdot Mo [] xs = g0 Mo.
+Proof. reflexivity. Qed.
+
+Lemma gdot_nil_r : forall a, gdot Mo a [] = g0 Mo.
+Proof. intros [|a0 a]; reflexivity. Qed.
+
+Lemma gdot_cons : forall a0 a x0 xs, gdot Mo (a0 :: a) (x0 :: xs) = gadd Mo (gsmul Mo x0 a0) (gdot Mo a xs).
+Proof.
+  intros. unfold gdot. cbn [combine fold_left fst snd]. rewrite gdot_fold_acc.
+  rewrite (ml_add_0_l K Mo HM). reflexivity.
+Qed.
+
+(* Σ_k (v_k·g)·a_k = (Σ_k a_k v_k)·g *)
+Lemma gdot_lift_vec : forall a v g, gdot Mo a (lift_vec Mo v g) = gsmul Mo g (dot K a v).
+Proof.
+  induction a as [|a0 a IH]; intros [|v0 v] g; cbn [lift_vec map];
+    rewrite ?gdot_nil_l, ?gdot_nil_r, ?dot_nil_l, ?dot_nil_r, ?(ml_smul_0 K Mo HM); auto.
+  rewrite gdot_cons, dot_cons. fold (lift_vec Mo v g). rewrite IH.
+  rewrite (ml_smul_mul K Mo HM), (ml_smul_add_r K Mo HM).
+  f_equal. f_equal. ring.
+Qed.
+
+Lemma nth_lift_vec : forall v g j, nth j (lift_vec Mo v g) (g0 Mo) = gsmul Mo g (nth j v 0).
+Proof.
+  induction v as [|v0 v IH]; intros g [|j]; cbn [lift_vec map nth]; rewrite ?(ml_smul_0 K Mo HM); auto.
+  apply IH.
+Qed.
+
+Lemma gcol_lift : forall (X : @matrix F) g j, gcol Mo j (lift Mo X g) = lift_vec Mo (col K j X) g.
+Proof.
+  intros. unfold gcol, lift, col, lift_vec. rewrite !map_map. apply map_ext.
+  intros r. apply nth_lift_vec.
+Qed.
+
+Lemma gncols_lift : forall (X : @matrix F) g, gncols (lift Mo X g) = ncols X.
+Proof. intros [|r X] g; cbn; auto. unfold lift_vec. now rewrite map_length. Qed.
+
+(* (e) LeftAction A (Lift X g) = Lift (A·X) g, for every A, X, g *)
+Theorem lift_left_action : forall (A X : @matrix F) g,
+  left_action Mo A (lift Mo X g) = lift Mo (mmul K A X) g.
+Proof.
+  intros A X g.
+  change (lift Mo (mmul K A X) g) with (map (fun r => lift_vec Mo r g) (map (fun r => vecm K r X) A)).
+  unfold left_action. rewrite map_map. apply map_ext. intros r.
+  unfold vecm. rewrite gncols_lift.
+  change (lift_vec Mo (map (fun j => dot K r (col K j X)) (seq 0 (ncols X))) g)
+    with (map (fun c => gsmul Mo g c) (map (fun j => dot K r (col K j X)) (seq 0 (ncols X)))).
+  rewrite map_map. apply map_ext. intros j.
+  rewrite gcol_lift. apply gdot_lift_vec.
+Qed.
+
+(* RightAction (Lift X g) A = Lift (X·A) g *)
+Theorem lift_right_action : forall (X A : @matrix F) g,
+  right_action K Mo (lift Mo X g) A = lift Mo (mmul K X A) g.
+Proof.
+  intros X A g.
+  change (lift Mo (mmul K X A) g) with (map (fun r => lift_vec Mo r g) (map (fun r => vecm K r A) X)).
+  change (lift Mo X g) with (map (fun r => lift_vec Mo r g) X).
+  unfold right_action. rewrite !map_map. apply map_ext. intros r.
+  unfold vecm.
+  change (lift_vec Mo (map (fun j => dot K r (col K j A)) (seq 0 (ncols A))) g)
+    with (map (fun c => gsmul Mo g c) (map (fun j => dot K r (col K j A)) (seq 0 (ncols A)))).
+  rewrite map_map. apply map_ext. intros j.
+  rewrite gdot_lift_vec. f_equal. apply dot_comm.
+Qed.
+
+(* Lift is additive in the base element and compatible with scalars *)
+Theorem lift_vec_gadd : forall v g h,
+  lift_vec Mo v (gadd Mo g h) = map (fun p => gadd Mo (fst p) (snd p)) (combine (lift_vec Mo v g) (lift_vec Mo v h)).
+Proof.
+  induction v as [|v0 v IH]; intros g h; cbn [lift_vec map combine fst snd]; auto.
+  rewrite (ml_smul_add_l K Mo HM). f_equal. apply IH.
+Qed.
+
+Theorem lift_vec_vscale : forall v c g, lift_vec Mo (vscale K c v) g = map (fun x => gsmul Mo x c) (lift_vec Mo v g).
+Proof.
+  intros. unfold lift_vec, vscale. rewrite !map_map. apply map_ext. intros a.
+  now rewrite (ml_smul_mul K Mo HM).
+Qed.
+
+End ModuleProofs.
+
+
+Theorem mmul_identity : forall r c (M : @matrix F), wf_matrix r c M -> 0 < r -> 0 < c ->
+  mmul K (identity K r) M = M /\ mmul K M (identity K c) = M.
+Proof. intros r c M H Hr Hc. split; [now apply (mmul_identity_l r c)|now apply (mmul_identity_r r c)]. Qed.
+
+(* ---- Determinant: zero exactly on the singular matrices -------------------------------------------- *)
+
+Lemma entry_det_elim : forall r c (M : @matrix F) k piv i j, wf_matrix r c M -> i < r -> j < c ->
+  entry K i j (det_elim K k piv M) =
+  if Nat.ltb k i
+  then (if Nat.ltb k j then entry K i j M - fdiv K (entry K i k M) piv * entry K k j M
+        else if Nat.eqb j k then 0 else entry K i j M)
+  else entry K i j M.
+Proof.
+  intros r c M k piv i j Hwf Hi Hj. pose proof Hwf as [HL _].
+  unfold entry at 1. unfold det_elim.
+  rewrite (nth_mapi _ M i [] []) by lia.
+  destruct (Nat.ltb k i); [|reflexivity].
+  rewrite (nth_mapi _ _ j 0 0) by (fold (row i M); rewrite (wf_row_length r c M i); auto).
+  reflexivity.
+Qed.
+
+Lemma wf_det_elim : forall r c (M : @matrix F) k piv, wf_matrix r c M -> wf_matrix r c (det_elim K k piv M).
+Proof.
+  intros r c M k piv [HL HF]. split.
+  - unfold det_elim. now rewrite mapi_length.
+  - apply Forall_forall. intros x Hx. destruct (In_nth _ _ [] Hx) as [i [Hi Hn]].
+    unfold det_elim in Hi, Hn. rewrite mapi_length in Hi. rewrite (nth_mapi _ M i [] []) in Hn by auto.
+    rewrite Forall_forall in HF. assert (length (nth i M []) = c) by (apply HF; apply nth_In; auto).
+    subst x. destruct (Nat.ltb k i); auto. now rewrite mapi_length.
+Qed.
+
+(* the determinant run and the TryInv run agree on all rows from k on, hence find the same pivots *)
+Definition rows_agree (k : nat) (D a : @matrix F) : Prop := forall i j, k <= i -> entry K i j D = entry K i j a.
+
+Lemma find_pivot_row_agree : forall n k (D a : @matrix F), wf_matrix n n D -> wf_matrix n n a ->
+  rows_agree k D a -> find_pivot_row K k k D = find_pivot_row K k k a.
+Proof.
+  intros n k D a [HLD _] [HLa _] Hag. unfold find_pivot_row.
+  assert (Hgen : forall m s, (s + m)%nat = n -> k <= s ->
+            find_pivot K k s (skipn s D) = find_pivot K k s (skipn s a)).
+  { induction m as [|m IH]; intros s Hs Hks.
+    - rewrite !skipn_all2 by lia. reflexivity.
+    - assert (Hd : skipn s D = nth s D [] :: skipn (S s) D).
+      { clear -HLD Hs. revert s HLD Hs. generalize n. induction D as [|h t IHD]; intros n0 s HL Hs; cbn in HL; [lia|].
+        destruct s; [reflexivity|]. cbn [skipn nth]. apply (IHD (pred n0)); lia. }
+      assert (Ha : skipn s a = nth s a [] :: skipn (S s) a).
+      { clear -HLa Hs. revert s HLa Hs. generalize n. induction a as [|h t IHa]; intros n0 s HL Hs; cbn in HL; [lia|].
+        destruct s; [reflexivity|]. cbn [skipn nth]. apply (IHa (pred n0)); lia. }
+      rewrite Hd, Ha. cbn [find_pivot].
+      pose proof (Hag s k Hks) as E. unfold entry in E. rewrite E.
+      destruct (fis0 K _); auto. apply IH; lia. }
+  destruct (Nat.le_gt_cases k n) as [Hkn|Hkn].
+  - apply (Hgen (n - k)%nat k); lia.
+  - rewrite !skipn_all2 by lia. reflexivity.
+Qed.
+
+Lemma det_inv_lockstep : forall n todo k D sg acc a out,
+  wf_matrix n n D -> inv_inv n k a out -> rows_agree k D a -> (k + todo)%nat = n ->
+  acc * sg <> 0 ->
+  match det_loop K todo k (mk_det D sg acc), inv_loop K todo k (a, out) with
+  | None, None => True
+  | Some st, Some _ => det_acc st * det_sign st <> 0
+  | _, _ => False
+  end.
+Proof.
+  intros n todo; induction todo as [|t IH]; intros k D sg acc a out HwD Hinv Hag Hkn Hnz; cbn [det_loop inv_loop].
+  - exact Hnz.
+  - pose proof Hinv as [Hwa Hwo Hunit]. pose proof Hwa as [HLa _]. pose proof HwD as [HLD _].
+    pose proof (inv_step_spec n k a out Hinv ltac:(lia)) as Hs.
+    unfold det_step. cbn [det_M det_sign det_acc].
+    unfold inv_step in *. cbn [fst snd] in *.
+    rewrite (find_pivot_row_agree n k D a HwD Hwa Hag).
+    pose proof (find_pivot_row_spec k k a) as Hfp.
+    destruct (find_pivot_row K k k a) as [p|]; [|exact I].
+    destruct Hfp as (Hp1 & Hp2 & Hp3).
+    fold (gj_swapped k p D). fold (gj_swapped k p a) in *. fold (gj_swapped k p out) in *.
+    cbn [fst snd] in Hs. destruct Hs as [Hinv' _].
+    set (D1 := gj_swapped k p D). set (a1 := gj_swapped k p a) in *.
+    assert (HwD1 : wf_matrix n n D1).
+    { unfold D1, gj_swapped. destruct (Nat.eqb p k); auto. apply wf_swap_rows; auto; lia. }
+    assert (Hwa1 : wf_matrix n n a1).
+    { unfold a1, gj_swapped. destruct (Nat.eqb p k); auto. apply wf_swap_rows; auto; lia. }
+    assert (Hag1 : rows_agree k D1 a1).
+    { intros i j Hi. unfold D1, a1. rewrite !entry_gj_swapped by lia. apply Hag. apply swap_idx_ge; auto. }
+    assert (Ha1k : forall j, j < k -> entry K k j a1 = 0).
+    { intros j Hj. unfold a1. rewrite entry_gj_swapped by lia. unfold swap_idx. rewrite Nat.eqb_refl.
+      rewrite Hunit by auto. replace (Nat.eqb p j) with false by (symmetry; apply Nat.eqb_neq; lia). reflexivity. }
+    assert (Hpiv : entry K k k D1 = entry K k k a1) by (apply Hag1; lia).
+    assert (He : entry K k k a1 <> 0).
+    { unfold a1. rewrite entry_gj_swapped by lia. unfold swap_idx. rewrite Nat.eqb_refl. exact Hp3. }
+    apply (IH (S k)); auto; try lia.
+    + apply wf_det_elim; auto.
+    + (* rows from k+1 on still agree *)
+      intros i j Hi.
+      destruct (Nat.ltb i n) eqn:Ei.
+      2:{ apply Nat.ltb_ge in Ei. rewrite !entry_overflow; auto.
+          - rewrite eliminate_by_length. unfold scale_row. rewrite upd_length. destruct Hwa1; lia.
+          - unfold det_elim. rewrite mapi_length. destruct HwD1; lia. }
+      apply Nat.ltb_lt in Ei.
+      destruct (Nat.ltb j n) eqn:Ej.
+      2:{ apply Nat.ltb_ge in Ej. rewrite !entry_row.
+          rewrite !nth_overflow; auto.
+          - rewrite (wf_row_length n n _ i); auto. apply wf_eliminate_by; auto. apply wf_scale_row; auto. lia.
+          - rewrite (wf_row_length n n _ i); auto. apply wf_det_elim; auto. }
+      apply Nat.ltb_lt in Ej.
+      rewrite (entry_det_elim n n) by auto.
+      replace (Nat.ltb k i) with true by (symmetry; apply Nat.ltb_lt; lia).
+      rewrite (entry_eliminate_by n n) by (auto using wf_scale_row; lia).
+      replace (Nat.eqb i k) with false by (symmetry; apply Nat.eqb_neq; lia).
+      rewrite nth_col, !entry_scale_row, Nat.eqb_refl.
+      replace (Nat.eqb i k) with false by (symmetry; apply Nat.eqb_neq; lia).
+      rewrite !(Hag1 i) by lia. rewrite !(Hag1 k) by lia.
+      rewrite !fdiv_def.
+      destruct (Nat.ltb k j) eqn:Ekj.
+      * ring.
+      * apply Nat.ltb_ge in Ekj. destruct (Nat.eqb j k) eqn:Ejk.
+        -- apply Nat.eqb_eq in Ejk; subst j.
+           transitivity (entry K i k a1 - entry K i k a1 * (finv K (entry K k k a1) * entry K k k a1)); [|ring].
+           rewrite finv_l by auto. ring.
+        -- apply Nat.eqb_neq in Ejk. rewrite Ha1k by lia. ring.
+    + (* accumulated product stays non-zero *)
+      rewrite Hpiv. intro E.
+      assert (E' : (acc * (if Nat.eqb p k then sg else fopp K sg)) * entry K k k a1 = 0) by (rewrite <- E; ring).
+      apply fmul_eq_0 in E'. destruct E' as [E'|E']; [|contradiction].
+      apply Hnz. destruct (Nat.eqb p k); auto.
+      assert (acc * sg = fopp K (acc * fopp K sg)) as -> by ring. rewrite E'. ring.
+Qed.
+
+(* (g) det_zero_iff: Determinant returns zero exactly when TryInv reports "singular",
+   i.e. (by try_inv_none_iff) exactly when the matrix has no inverse *)
+Theorem det_zero_iff : forall n (M : @matrix F), wf_matrix n n M -> 0 < n ->
+  (determinant K M = 0 <-> try_inv K M = None).
+Proof.
+  intros n M Hwf Hn. pose proof Hwf as [HL _].
+  assert (Hinit : inv_inv n 0 M (identity K n)).
+  { constructor; auto using wf_identity. intros; lia. }
+  assert (Hnz : 1 * 1 <> 0) by (intro E; apply f1_neq_0; rewrite <- E; ring).
+  pose proof (det_inv_lockstep n n 0 M 1 1 M (identity K n) Hwf Hinit ltac:(intros i j _; reflexivity) ltac:(lia) Hnz) as H.
+  unfold determinant, try_inv. unfold nrows. rewrite HL.
+  destruct (det_loop K n 0 (mk_det M 1 1)) as [st|]; destruct (inv_loop K n 0 (M, identity K n)) as [st'|];
+    try contradiction.
+  - split; [intro E; contradiction|discriminate].
+  - split; auto.
+Qed.
+
+Corollary det_zero_iff_singular : forall n (M : @matrix F), wf_matrix n n M -> 0 < n ->
+  (determinant K M = 0 <->
+   ~ exists N, wf_matrix n n N /\ mmul K M N = identity K n /\ mmul K N M = identity K n).
+Proof. intros n M Hwf Hn. rewrite (det_zero_iff n M Hwf Hn). now apply try_inv_none_iff. Qed.
+
 End LinAlgProofs.
